@@ -166,11 +166,11 @@ def NS.emit (s : NS) (o : NOut) : NS := { s with out := s.out.push o }
 
 /-! ### net primitives (`create_place`, `create_transition`, `add_input`, `add_output`, `add_callback`) -/
 
-def NS.newPlace (s : NS) : Nat × NS :=
-  (s.places.size, { s with places := s.places.push {} })
+/-- `create_place`: the new place has index `s.places.size` -/
+def NS.pushPlace (s : NS) : NS := { s with places := s.places.push {} }
 
-def NS.newTrans (s : NS) : Nat × NS :=
-  (s.trans.size, { s with trans := s.trans.push {}, cbs := s.cbs.push [] })
+/-- `create_transition`: the new transition has index `s.trans.size` -/
+def NS.pushTrans (s : NS) : NS := { s with trans := s.trans.push {}, cbs := s.cbs.push [] }
 
 /-- `net.add_input(place, transition)`: the transition consumes from the place -/
 def NS.addIn (s : NS) (p t : Nat) : NS :=
@@ -183,15 +183,19 @@ def NS.addOut (s : NS) (p t : Nat) : NS :=
 def NS.addCb (s : NS) (t : Nat) (cb : Cb) : NS :=
   { s with cbs := s.cbs.modify t (fun l => l ++ [(s.ncb, cb)]), ncb := s.ncb + 1 }
 
-def NS.newTask (s : NS) (name : String) (line : Nat) (parent : Option Nat) (call : Option CallSite)
-    (inLoop : Bool) : Nat × NS :=
+/-- a new `TaskAPI` object (index `s.tasks.size`) with a uuid4 -/
+def NS.pushTask (s : NS) (name : String) (line : Nat) (parent : Option Nat) (call : Option CallSite)
+    (inLoop : Bool) : NS :=
   let api : TaskApi := { name, line, parent, call, inLoop, uid := .fresh s.nfresh,
                          params := match call with | some c => c.ins | none => [] }
-  (s.tasks.size, { s with tasks := s.tasks.push api, nfresh := s.nfresh + 1 })
+  { s with tasks := s.tasks.push api, nfresh := s.nfresh + 1 }
 
-def NS.newSvc (s : NS) (c : CallSite) (ctx : Nat) (inLoop : Bool) : Nat × NS :=
+/-- a new `ServiceAPI` object (index `s.svcs.size`) with a uuid4, registered in `place_dict` under that uuid with
+    its "finished" place -/
+def NS.pushSvc (s : NS) (c : CallSite) (ctx : Nat) (inLoop : Bool) (finished : Nat) : NS :=
   let api : SvcApi := { c, ctx, inLoop, uid := .fresh s.nfresh, params := c.ins }
-  (s.svcs.size, { s with svcs := s.svcs.push api, nfresh := s.nfresh + 1 })
+  { s with svcs := s.svcs.push api, nfresh := s.nfresh + 1,
+           placeDict := dictSet s.placeDict (Uid.fresh s.nfresh) finished }
 
 /-! ### the generator -/
 
@@ -204,8 +208,9 @@ def genStmts : Nat → List Stmt → (ctx first last : Nat) → (inLoop : Bool) 
   | f+1, [st], ctx, first, last, inLoop, prev, single, s =>
       genStmt f st ctx (if single then first else prev) last inLoop s
   | f+1, st :: rest, ctx, first, last, inLoop, prev, single, s =>
-      let (cur, s) := s.newTrans
-      let (_, s) := genStmt f st ctx prev cur inLoop s
+      let cur := s.trans.size
+      let s := s.pushTrans
+      let s := (genStmt f st ctx prev cur inLoop s).2
       genStmts f rest ctx first last inLoop cur single s
 
 /-- one statement between two transitions -/
@@ -213,12 +218,16 @@ def genStmt : Nat → Stmt → (ctx t1 t2 : Nat) → (inLoop : Bool) → NS → 
   | 0, _, _, _, _, _, s => ([], s.outOfFuel)
   | _+1, .svc c, ctx, t1, t2, inLoop, s =>
       -- generate_service
-      let (api, s) := s.newSvc c ctx inLoop
-      let (started, s) := s.newPlace
-      let (finished, s) := s.newPlace
-      let s := { s with placeDict := dictSet s.placeDict (Uid.fresh (s.nfresh - 1)) finished }
-      let (done, s) := s.newPlace
-      let (doneT, s) := s.newTrans
+      let api := s.svcs.size
+      let started := s.places.size
+      let s := s.pushPlace
+      let finished := s.places.size
+      let s := s.pushPlace
+      let s := s.pushSvc c ctx inLoop finished
+      let done := s.places.size
+      let s := s.pushPlace
+      let doneT := s.trans.size
+      let s := s.pushTrans
       let s := s.addCb t1 (.svcStarted api)
       let s := s.addCb doneT (.svcFinished api)
       let s := s.addIn started doneT
@@ -230,27 +239,36 @@ def genStmt : Nat → Stmt → (ctx t1 t2 : Nat) → (inLoop : Bool) → NS → 
   | f+1, .call c, ctx, t1, t2, inLoop, s => genCall f c ctx t1 t2 inLoop s
   | f+1, .par cs _, ctx, t1, t2, inLoop, s =>
       -- generate_parallel
-      let (sync, s) := s.newTrans
-      let (pf, s) := s.newPlace
+      let sync := s.trans.size
+      let s := s.pushTrans
+      let pf := s.places.size
+      let s := s.pushPlace
       let s := genCalls f cs ctx t1 sync inLoop s
       let s := s.addOut pf sync
       let s := s.addIn pf t2
       ([sync], s)
   | f+1, .cond e passed failed _, ctx, t1, t2, inLoop, s =>
       -- generate_condition
-      let (passedP, s) := s.newPlace
-      let (failedP, s) := s.newPlace
-      let (exprP, s) := s.newPlace
-      let (fp, s) := s.newTrans
-      let (ff, s) := s.newTrans
+      let passedP := s.places.size
+      let s := s.pushPlace
+      let failedP := s.places.size
+      let s := s.pushPlace
+      let exprP := s.places.size
+      let s := s.pushPlace
+      let fp := s.trans.size
+      let s := s.pushTrans
+      let ff := s.trans.size
+      let s := s.pushTrans
       let s := s.addIn exprP fp
       let s := s.addIn exprP ff
       let s := s.addIn passedP fp
       let s := s.addIn failedP ff
-      let (finP, s) := s.newPlace
-      let (sp, s) := s.newTrans
+      let finP := s.places.size
+      let s := s.pushPlace
+      let sp := s.trans.size
+      let s := s.pushTrans
       let s := s.addOut finP sp
-      let (_, s) := genStmts f passed ctx fp sp inLoop fp (passed.length ≤ 1) s
+      let s := (genStmts f passed ctx fp sp inLoop fp (passed.length ≤ 1) s).2
       let s := s.addOut exprP t1
       let s := s.addIn finP t2
       let s := s.addCb t1 (.cond e passedP failedP ctx)
@@ -258,25 +276,33 @@ def genStmt : Nat → Stmt → (ctx t1 t2 : Nat) → (inLoop : Bool) → NS → 
         let s := s.addOut finP ff
         ([sp, ff], s)
       else
-        let (sf, s) := s.newTrans
-        let (_, s) := genStmts f failed ctx ff sf inLoop ff (failed.length ≤ 1) s
+        let sf := s.trans.size
+      let s := s.pushTrans
+        let s := (genStmts f failed ctx ff sf inLoop ff (failed.length ≤ 1) s).2
         let s := s.addOut finP sf
         ([sp, sf], s)
   | f+1, .cloop var lim body line, ctx, t1, t2, _, s =>
       -- generate_counting_loop
-      let (loopP, s) := s.newPlace
-      let (stmP, s) := s.newPlace
-      let (finP, s) := s.newPlace
-      let (cp, s) := s.newTrans
-      let (cf, s) := s.newTrans
-      let (isd, s) := s.newTrans
+      let loopP := s.places.size
+      let s := s.pushPlace
+      let stmP := s.places.size
+      let s := s.pushPlace
+      let finP := s.places.size
+      let s := s.pushPlace
+      let cp := s.trans.size
+      let s := s.pushTrans
+      let cf := s.trans.size
+      let s := s.pushTrans
+      let isd := s.trans.size
+      let s := s.pushTrans
       let s := s.addIn loopP cp
       let s := s.addIn stmP cp
       let s := s.addIn loopP cf
       let s := s.addIn finP cf
       let s := s.addOut loopP isd
-      let (doneP, s) := s.newPlace
-      let (_, s) := genStmts f body ctx cp isd true cp (body.length ≤ 1) s
+      let doneP := s.places.size
+      let s := s.pushPlace
+      let s := (genStmts f body ctx cp isd true cp (body.length ≤ 1) s).2
       let s := s.addOut doneP cf
       let s := s.addOut loopP t1
       let s := s.addIn doneP t2
@@ -285,19 +311,26 @@ def genStmt : Nat → Stmt → (ctx t1 t2 : Nat) → (inLoop : Bool) → NS → 
       ([cf], s)
   | f+1, .wloop e body _, ctx, t1, t2, _, s =>
       -- generate_while_loop
-      let (loopP, s) := s.newPlace
-      let (stmP, s) := s.newPlace
-      let (finP, s) := s.newPlace
-      let (cp, s) := s.newTrans
-      let (cf, s) := s.newTrans
-      let (isd, s) := s.newTrans
+      let loopP := s.places.size
+      let s := s.pushPlace
+      let stmP := s.places.size
+      let s := s.pushPlace
+      let finP := s.places.size
+      let s := s.pushPlace
+      let cp := s.trans.size
+      let s := s.pushTrans
+      let cf := s.trans.size
+      let s := s.pushTrans
+      let isd := s.trans.size
+      let s := s.pushTrans
       let s := s.addIn loopP cp
       let s := s.addIn stmP cp
       let s := s.addIn loopP cf
       let s := s.addIn finP cf
       let s := s.addOut loopP isd
-      let (doneP, s) := s.newPlace
-      let (_, s) := genStmts f body ctx cp isd true cp (body.length ≤ 1) s
+      let doneP := s.places.size
+      let s := s.pushPlace
+      let s := (genStmts f body ctx cp isd true cp (body.length ≤ 1) s).2
       let s := s.addOut loopP t1
       let s := s.addIn doneP t2
       let s := s.addCb t1 (.wloop e stmP finP ctx)
@@ -306,7 +339,8 @@ def genStmt : Nat → Stmt → (ctx t1 t2 : Nat) → (inLoop : Bool) → NS → 
       ([cf], s)
   | _+1, .ploop var lim c _, ctx, t1, t2, _, s =>
       -- generate_parallel_loop: a placeholder; the loop is built when it is reached
-      let (pl, s) := s.newPlace
+      let pl := s.places.size
+      let s := s.pushPlace
       let s := s.addOut pl t1
       let s := s.addIn pl t2
       let s := s.addCb t1 (.ploop var lim c pl t1 t2 ctx)
@@ -319,17 +353,18 @@ def genCall : Nat → CallSite → (ctx t1 t2 : Nat) → (inLoop : Bool) → NS 
       match s.prog.task? c.name with
       | none => ([], s.raise "KeyError")
       | some t =>
-        let (nctx, s) := s.newTask t.name c.line (some ctx) (some c) inLoop
+        let nctx := s.tasks.size
+        let s := s.pushTask t.name c.line (some ctx) (some c) inLoop
         let s := s.addCb t1 (.taskStarted nctx)
-        let (lasts, s) := genStmts f t.body nctx t1 t2 inLoop t1 (t.body.length ≤ 1) s
-        (lasts, lasts.foldl (fun s l => s.addCb l (.taskFinished nctx)) s)
+        let r := genStmts f t.body nctx t1 t2 inLoop t1 (t.body.length ≤ 1) s
+        (r.1, r.1.foldl (fun s l => s.addCb l (.taskFinished nctx)) r.2)
 
 /-- the task calls of a Parallel block, in order -/
 def genCalls : Nat → List CallSite → (ctx t1 t2 : Nat) → (inLoop : Bool) → NS → NS
   | 0, _, _, _, _, _, s => s.outOfFuel
   | _+1, [], _, _, _, _, s => s
   | f+1, c :: cs, ctx, t1, t2, inLoop, s =>
-      let (_, s) := genCall f c ctx t1 t2 inLoop s
+      let s := (genCall f c ctx t1 t2 inLoop s).2
       genCalls f cs ctx t1 t2 inLoop s
 end
 
@@ -340,15 +375,20 @@ def generate (P : Prog) (valid : Bool) (fuel : Nat) : NS :=
   | none => { s with valid := false }
   | some t =>
     if !valid then s else
-    let (root, s) := s.newTask t.name t.line none none false
+    let root := s.tasks.size
+    let s := s.pushTask t.name t.line none none false
     let s := { s with tasks := s.tasks.modify root (fun a => { a with uid := .id 0 }) }
-    let (started, s) := s.newPlace
-    let (c1, s) := s.newTrans
+    let started := s.places.size
+    let s := s.pushPlace
+    let c1 := s.trans.size
+    let s := s.pushTrans
     let s := s.addCb c1 (.taskStarted root)
     let s := s.addIn started c1
-    let (finished, s) := s.newPlace
-    let (c2, s) := s.newTrans
-    let (_, s) := genStmts fuel t.body root c1 c2 false c1 (t.body.length ≤ 1) s
+    let finished := s.places.size
+    let s := s.pushPlace
+    let c2 := s.trans.size
+    let s := s.pushTrans
+    let s := (genStmts fuel t.body root c1 c2 false c1 (t.body.length ≤ 1) s).2
     let s := s.addOut finished c2
     let s := s.addCb c2 (.taskFinished root)
     { s with startPlace := started, finalPlace := finished, awaited := [.start] }
@@ -620,7 +660,8 @@ def runCb (ee : EE) : Nat → Cb → NS → NS
               { s with loopCtrs := dictSet s.loopCtrs u (dictSet d (.pvar var) (.cell (s.cells.size - 1))) }) s
           else
             -- generate_empty_parallel_loop
-            let (p, s) := s.newPlace
+            let p := s.places.size
+            let s := s.pushPlace
             (s.addOut p t1).addIn p t2
         if s.exc.isSome then s else
         let s := if s.hasPlace place then s.removePlace place else s
